@@ -78,7 +78,7 @@ func (l *list[T]) Remove(e ListElement[T]) T {
 		l.remove(typedElement)
 	}
 
-	return *typedElement.value.Load()
+	return typedElement.Value()
 }
 
 // InsertBefore inserts and returns a new element with the given value immediately before the given position.
@@ -184,7 +184,7 @@ func (l *list[T]) PushBackList(other List[T]) {
 			panic("unsupported ListElement type")
 		}
 
-		l.insertValue(*typedElement.value.Load(), l.root.prev.Load())
+		l.insertValue(typedElement.Value(), l.root.prev.Load())
 	}
 }
 
@@ -197,7 +197,7 @@ func (l *list[T]) PushFrontList(other List[T]) {
 			panic("unsupported ListElement type")
 		}
 
-		l.insertValue(*typedElement.value.Load(), &l.root)
+		l.insertValue(typedElement.Value(), &l.root)
 	}
 }
 
